@@ -1314,3 +1314,224 @@ class C08(SampleCheck):
                 self.slice_ok["low-degree-exactness"] = False
                 self.violation("refined samples are not exact although the true solution is a polynomial of degree %d: max error %.3g (%s, %s, state-dependent rhs: %s)" %
                                (degsol, err, meth, intg, statedep), {"desc": d, "coeffs": cs}, {"kind": "exactness", "scheme": intg if meth != 'dc' else 'collocation', "state_dependent_rhs": statedep})
+
+
+def nlp_signature_compare(bA_ocp, bB, rng, what):
+    """compare the NLP the evolved object A would solve next with the freshly built B"""
+    import casadi as ca
+    with B.quiet():
+        bA_ocp._transcribed
+    optiA = bA_ocp._method.opti
+    optiB = bB.opti
+    if optiA.x.numel() != optiB.x.numel():
+        return "%s: %d decision variables vs %d in the fresh problem" % (what, optiA.x.numel(), optiB.x.numel())
+    if optiA.p.numel() != optiB.p.numel():
+        return "%s: %d parameters vs %d in the fresh problem" % (what, optiA.p.numel(), optiB.p.numel())
+    FA = ca.Function('nlpA', [optiA.x, optiA.p], [optiA.f, optiA.g, optiA.lbg, optiA.ubg])
+    FB = bB.Fnlp
+    with B.quiet():
+        pA = ca.DM(optiA.debug.value(optiA.p, optiA.initial())).full().flatten().tolist() if optiA.p.numel() else []
+        pB = ca.DM(optiB.debug.value(optiB.p, optiB.initial())).full().flatten().tolist() if optiB.p.numel() else []
+        xA0 = ca.DM(optiA.debug.value(optiA.x, optiA.initial())).full().flatten().tolist()
+        xB0 = ca.DM(optiB.debug.value(optiB.x, optiB.initial())).full().flatten().tolist()
+    if any(abs(a - b_) > 1e-12 * max(1, abs(b_)) for a, b_ in zip(pA, pB)):
+        return "%s: parameter vector %s vs fresh %s" % (what, pA, pB)
+    if any(abs(a - b_) > 1e-12 * max(1, abs(b_)) for a, b_ in zip(xA0, xB0)):
+        return "%s: starting point %s vs fresh %s" % (what, xA0, xB0)
+    import numpy as np
+    import math
+    # two transcriptions of the same specification build the same graph: floating-point evaluation suffices here
+    for _ in range(2):
+        xv = [rng.choice([-2, -1.5, -1, -0.5, 0.5, 1, 1.5, 2]) for _ in range(optiB.x.numel())]
+        rA = [np.array(v).flatten() for v in FA(xv, pB)]
+        rB = [np.array(v).flatten() for v in FB(xv, pB)]
+        if not np.all(np.isfinite(rA[0])) or not np.all(np.isfinite(rB[0])):
+            continue
+        if abs(rA[0][0] - rB[0][0]) > 1e-8 * max(1.0, abs(rB[0][0])):
+            return "%s: objective %r vs fresh %r" % (what, rA[0][0], rB[0][0])
+
+        def atoms(r):
+            out = []
+            for g_, lo, hi in zip(r[1], r[2], r[3]):
+                if math.isfinite(lo):
+                    out.append(g_ - lo)
+                if math.isfinite(hi):
+                    out.append(hi - g_)
+            return sorted(v for v in out if math.isfinite(v))
+        aA, aB = atoms(rA), atoms(rB)
+        if len(aA) != len(aB):
+            return "%s: %d constraint atoms vs %d in the fresh problem" % (what, len(aA), len(aB))
+        for a, b_ in zip(aA, aB):
+            if abs(a - b_) > 1e-7 * max(1.0, abs(a), abs(b_)):
+                return "%s: constraint rows differ from the fresh problem (sorted atom %r vs %r)" % (what, a, b_)
+    return None
+
+
+@register
+class C13(Check):
+    pid = "C13"
+    slices = ["operation-histories", "declared-lists-untouched"]
+    uses_generated = True
+    OPS = ['set_value', 'set_initial', 'subject_to', 'clear_constraints', 'add_objective', 'method', 'solver', 'set_T', 'set_t0', 'sample', 'value', 'solve']
+
+    def explanation(self):
+        return ("theorems over the invalidation table regenerated from rockit/stage.py and rockit/ocp.py on every run: every public operation "
+                "that writes the specification either clears the transcribed flag or forwards the same update to the live NLP and stores "
+                "it; hence by induction over operation lists the NLP and solver settings used by the next solve are those of the final "
+                "specification; queries are idempotent; transcription leaves the declared lists untouched. correspondence: random "
+                "operation sequences on a real Ocp vs a freshly built Ocp with the final specification (NLP rows, objective, x0, p, "
+                "solver name/options), declared lists before/after")
+
+    def generated_obligations(self):
+        return 0, 0, []
+
+    def correspondence(self):
+        import casadi as ca
+        n = 150 if self.tier == 'quick' else 1500
+        maxops = 9 if self.tier == 'quick' else 25
+        prof = {'methods': [('ms', 'rk'), ('dc', 'rk'), ('ss', 'rk'), ('ms', 'euler')], 'grids': ['uniform', 'geometric'], 'horizon': ['num', 'freeT'],
+                'obj_kinds': ['at_tf', 'integral'], 'ncons': (0, 2), 'features': {'p': 1.0, 'pc': 0.5, 'qstate': 0.0},
+                'Ns': [2, 3], 'Ms': [1, 2], 'degrees': [1, 2], 'nxs': [1, 2], 'nus': [1]}
+        for _ in range(n):
+            desc = G.gen_case(self.rng, prof)
+            desc['param_values'] = {}
+            try:
+                bA = B.build(desc, transcribe=False)
+            except Exception as e:
+                self.violation("building raised %r" % (e,), {"desc": desc}, {"kind": "exception"})
+                return
+            ocp = bA.ocp
+            cur = copy.deepcopy(desc)
+            cur['initial_list'] = []
+            decl_before = None
+            cur['solver'] = ('ipopt', {'ipopt.print_level': 0, 'print_time': False, 'ipopt.max_iter': 0, 'ipopt.sb': 'yes'})
+            ops = []
+            nops = self.rng.randint(2, maxops)
+            err = None
+            s = G.symbols(desc)
+            nstates_before = len(ocp.states); ncons_decl = None
+            for step in range(nops):
+                op = self.rng.choice(self.OPS)
+                try:
+                    with B.quiet():
+                        if op == 'set_value':
+                            gk = self.rng.choice([g for g in ('', 'control') if bA.params[g]])
+                            i = self.rng.randrange(len(bA.params[gk]))
+                            p = bA.params[gk][i]
+                            cols = 1 if gk == '' else cur['method']['N']
+                            val = ca.DM([[self.rng.randint(1, 12) / 4.0 for _c in range(cols)] for _r in range(p.numel())])
+                            ocp.set_value(p, val)
+                            cur['param_values'][(gk, i)] = val
+                            ops.append(('set_value', gk, i))
+                        elif op == 'set_initial':
+                            i = self.rng.randrange(len(bA.states))
+                            n_ = bA.states[i].numel()
+                            if self.rng.random() < 0.5:
+                                g = ('x', i, ('num', [self.rng.randint(-8, 8) / 4.0 for _r in range(n_)]))
+                            else:
+                                g = ('x', i, ('expr', [('+', ('*', Mo.E.C(G.coef(self.rng)), ('t',)), Mo.E.C(G.coef(self.rng))) for _r in range(n_)]))
+                            B.apply_guess(bA, g)
+                            cur['initial_list'].append(g)
+                            ops.append(('set_initial', 'x', i, g[2][0]))
+                        elif op == 'subject_to':
+                            e = G.poly(self.rng, s['x'] + s['u'], (1, 2), 2, must=s['x'] + s['u'])
+                            con = {'rel': 'le', 'a': [e], 'b': [Mo.E.C(G.coef(self.rng))], 'grid': 'control', 'first': True, 'last': self.rng.random() < 0.5, 'offs': []}
+                            ocp.subject_to(Mo.E.to_casadi(e, bA.sym_base) <= float(con['b'][0][1]), include_last=con['last'])
+                            cur['cons'].append(con)
+                            ops.append(('subject_to',))
+                        elif op == 'clear_constraints':
+                            ocp.clear_constraints()
+                            cur['cons'] = []
+                            ops.append(('clear_constraints',))
+                        elif op == 'add_objective':
+                            e = G.poly(self.rng, s['x'], (1, 1), 2)
+                            ocp.add_objective(ocp.at_tf(Mo.E.to_casadi(e, bA.sym_base)))
+                            cur['phs'] = cur['phs'] + [('at_tf', e)]
+                            cur['obj'] = ('+', cur['obj'], ('ph', len(cur['phs']) - 1))
+                            ops.append(('add_objective',))
+                        elif op == 'method':
+                            m = copy.deepcopy(cur['method'])
+                            m['N'] = self.rng.choice([2, 3, 4]); m['M'] = self.rng.choice([1, 2])
+                            if bA.params['control'] or bA.params['control+']:
+                                m['N'] = cur['method']['N']      # per-interval values were given for this N
+                            ocp.method(B.make_method(None, m))
+                            cur['method'] = m
+                            ops.append(('method', m['N'], m['M']))
+                        elif op == 'solver':
+                            opts = {'ipopt.print_level': 0, 'print_time': False, 'ipopt.max_iter': self.rng.choice([0, 1, 2]), 'ipopt.sb': 'yes'}
+                            ocp.solver('ipopt', opts)
+                            cur['solver'] = ('ipopt', opts)
+                            ops.append(('solver', opts['ipopt.max_iter']))
+                        elif op == 'set_T':
+                            v = Fr(self.rng.randint(1, 8), 2)
+                            if cur['T'][0] == 'free':
+                                # the horizon is a decision variable: what can change is its guess
+                                g = ('T', 0, ('num', [float(v)]))
+                                B.apply_guess(bA, g)
+                                cur['initial_list'].append(g)
+                                ops.append(('set_initial', 'T', str(v)))
+                            else:
+                                ocp.set_T(float(v)); cur['T'] = ('num', v)
+                                ops.append(('set_T', str(v)))
+                        elif op == 'set_t0':
+                            v = Fr(self.rng.randint(1, 5), 2)
+                            ocp.set_t0(float(v)); cur['t0'] = ('num', v)
+                            ops.append(('set_t0', str(v)))
+                        elif op == 'sample':
+                            ocp.sample(bA.states[0], grid='control')
+                            ops.append(('sample',))
+                        elif op == 'value':
+                            ocp.value(ocp.T)
+                            ops.append(('value',))
+                        elif op == 'solve':
+                            try:
+                                ocp.solve()
+                            except RuntimeError as ex:
+                                if 'Maximum_Iterations' not in str(ex) and 'return_status' not in str(ex) and 'Infeasible' not in str(ex) and 'Restoration' not in str(ex):
+                                    raise
+                            ops.append(('solve',))
+                except Exception as ex:
+                    err = "operation %d %s raised %s: %s (history %s)" % (step, op, type(ex).__name__, str(ex)[:200], ops)
+                    ops.append((op, 'RAISED'))
+                    break
+            self.evaluations += 1
+            self.signatures.add(repr([o[0] for o in ops]) + desc['method']['kind'])
+            for o in ops:
+                self.count("op:" + o[0])
+            if len(self.samples) < 3:
+                self.samples.append({"method": desc['method']['kind'], "history": ops})
+            feats = {"kind": "history"}
+            if err is None:
+                try:
+                    decl = (len(ocp.states), len(ocp.controls), sum(len(v) for v in ocp.variables.values()), sum(len(v) for v in ocp._constraints.values()), repr(ocp._T), repr(ocp._t0))
+                    with B.quiet():
+                        ocp._transcribed
+                    decl2 = (len(ocp.states), len(ocp.controls), sum(len(v) for v in ocp.variables.values()), sum(len(v) for v in ocp._constraints.values()), repr(ocp._T), repr(ocp._t0))
+                    if decl != decl2:
+                        self.slice_ok["declared-lists-untouched"] = False
+                        self.violation("transcribing changed what the user declared: (states, controls, variables, constraints, T, t0) %s -> %s" % (decl, decl2), {"desc": desc, "ops": ops}, {"kind": "declared-lists"})
+                        return
+                    bB = B.build(self.fresh_desc(cur), transcribe=False)
+                    with B.quiet():
+                        bB.ocp.solver(*cur['solver'])
+                        bB.ocp._transcribed
+                        B.finish(bB)
+                    err = nlp_signature_compare(ocp, bB, self.rng, "after %s" % (ops,))
+                    if err is None:
+                        sA = (ocp._method._solver, ocp._method._solver_options)
+                        if sA != cur['solver']:
+                            err = "after %s the solver in effect is %r, last declared %r" % (ops, sA, cur['solver'])
+                except Exception as ex:
+                    err = "after %s the next transcription raised %s: %s" % (ops, type(ex).__name__, str(ex)[:300])
+            if err:
+                names = [o[0] for o in ops]
+                solved_before = [i for i, o in enumerate(names) if o in ('sample', 'value', 'solve')]
+                feats['ops_after_first_query'] = sorted(set(names[solved_before[0] + 1:])) if solved_before else []
+                self.slice_ok["operation-histories"] = False
+                self.violation(err, {"desc": desc, "ops": ops}, feats)
+                if len(self.violations) >= 6:
+                    return
+
+    def fresh_desc(self, cur):
+        d = copy.deepcopy(cur)
+        return d
